@@ -24,8 +24,17 @@ template<int D> Rt make_root(std::vector<std::pair<idx_t, idx_t>> const& e) {
 	r.keep = buf;
 	return r;
 }
+Rt make_root0() {  // rank 0: one cell; compared by cmp0 below, no view program applies to it
+	auto buf = std::make_shared<std::vector<int>>(2, 0);
+	Rt r;
+	r.n = 1;
+	r.data = buf->data();
+	r.keep = buf;
+	return r;
+}
 Rt make_root_dyn(int D, std::vector<std::pair<idx_t, idx_t>> const& e) {
 	switch(D) {
+		case 0: return make_root0();
 		case 1: return make_root<1>(e);
 		case 2: return make_root<2>(e);
 		case 3: return make_root<3>(e);
@@ -66,6 +75,33 @@ struct Cmp : dv::Typed<int, Cmp> {
 	}
 };
 
+// rank 0: references (array_ref<int, 0>), owning arrays, mixed kinds, convertible element type, const, cref
+std::string cmp0(int* pa, int* pb) {
+#ifdef C07_HAS_RANK0
+	auto bit = [](bool x) { return x ? '1' : '0'; };
+	multi::array_ref<int, 0> a(pa, {});
+	multi::array_ref<int, 0> b(pb, {});
+	std::string s = "view=";
+	s += bit(a == b); s += bit(a != b); s += bit(a < b); s += bit(a <= b); s += bit(a > b); s += bit(a >= b);
+	multi::array<int, 0> A(*pa);
+	multi::array<int, 0> B(*pb);
+	s += " array=";
+	s += bit(A == B); s += bit(A != B); s += bit(A < B); s += bit(A <= B); s += bit(A > B);
+	s += " mixed=";
+	s += bit(a == B); s += bit(a != B);
+	multi::array<double, 0> Bd(static_cast<double>(*pb));
+	multi::array<int, 0> const cB(*pb);
+	multi::array_cref<int, 0> Bc(B.data_elements(), {});
+	s += bit(a == Bd); s += bit(a != Bd);
+	s += bit(A == cB); s += bit(A != cB);
+	s += bit(a == Bc); s += bit(a != Bc);
+	return s;
+#else
+	(void)pa; (void)pb;
+	throw dv::unsupported("rank-0 comparison does not compile on this tree");
+#endif
+}
+
 int main() {
 	std::string line;
 	std::string id;
@@ -91,6 +127,7 @@ int main() {
 				is >> n;
 				auto op = dv::parse_op(is);
 				auto& r = roots[idx(n)];
+				if(!r.view) { throw dv::unsupported("view operation on a rank-0 root"); }
 				auto nv = r.view->apply(op);
 				r.view = std::move(nv);
 			} else if(kw == "xdata") {
@@ -103,6 +140,16 @@ int main() {
 			} else if(kw == "cmp") {
 				if(dead) { continue; }
 				char const* names[3] = {"a", "b", "c"};
+				if(!roots[0].view) {  // rank 0
+					int const pairs0[7][2] = {{0, 1}, {1, 0}, {0, 2}, {2, 0}, {1, 2}, {2, 1}, {0, 0}};
+					std::string lines;
+					for(auto const& pq : pairs0) {
+						lines += "C " + id + ' ' + names[pq[0]] + names[pq[1]] + ' ' + cmp0(roots[pq[0]].data, roots[pq[1]].data) + '\n';
+					}
+					for(auto const* nm : names) { std::cout << "V " << id << ' ' << nm << " sizes=\n"; }
+					std::cout << lines;
+					continue;
+				}
 				for(int k = 0; k != 3; ++k) {
 					auto sz = roots[k].view->sizes();
 					std::cout << "V " << id << ' ' << names[k] << " sizes=" << dv::join(sz.begin(), sz.end()) << '\n';
